@@ -264,7 +264,7 @@ let run_exec (dbl : bool) =
          (match lhs, rhs with
           | "pool" :: "node" :: ns :: bs :: src :: _, "ok" :: _ when not dbl ->
             let nsi = max 8 (int_of_string ns) in
-            let k = if src = "grow" then AGrow else AFixed in
+            let k = if src = "grow" then AGrow else if src = "const" then AConst else AFixed in
             let ((s, _), mev) = up_construct k (zi nsi) (zi (int_of_string bs)) (answer_of events) in
             incr steps;
             if mev <> events then diverge (Printf.sprintf "constructor: model events [%s]" (show_evs mev)) line;
@@ -339,7 +339,7 @@ let run_exec_small () =
            st := Some s'; check_caps s' caps line in
          (match lhs, rhs with
           | "pool" :: "small" :: ns :: bs :: src :: _, "ok" :: _ ->
-            let k = if src = "grow" then AGrow else AFixed in
+            let k = if src = "grow" then AGrow else if src = "const" then AConst else AFixed in
             let ((s, _), mev) = sp_construct k (zi (int_of_string ns)) (zi (int_of_string bs)) (answer_of events) in
             incr steps;
             if mev <> events then diverge (Printf.sprintf "constructor: model events [%s]" (show_evs mev)) line;
@@ -408,7 +408,7 @@ let run_exec_ordered (node_pool_too : bool) =
          (match lhs, rhs with
           | "pool" :: pt :: ns :: bs :: src :: pos :: _, "ok" :: _ when pt = "array" || (pt = "node" && node_pool_too) ->
             let nsi = max 8 (int_of_string ns) in
-            let k = if src = "grow" then AGrow else AFixed in
+            let k = if src = "grow" then AGrow else if src = "const" then AConst else AFixed in
             let (pb0, pe0) = if pos = "high" then (zi (1 lsl 40), zi ((1 lsl 40) + 8)) else (zi 1, zi 9) in
             let ((s, _), mev) = op_construct k pb0 pe0 (zi nsi) (zi (int_of_string bs)) (answer_of events) in
             incr steps;
@@ -439,6 +439,124 @@ let run_exec_ordered (node_pool_too : bool) =
                (match op_dealloc s p (zi bytes) with
                 | Some ((a, b), c) -> finish (a, b, c)
                 | None -> diverge "model: the released memory is not out (or not with that size)" line; st := None))
+          | _ -> ())
+       | _ -> ()
+     done
+   with End_of_file -> ());
+  Printf.printf "SUMMARY exec_steps=%d diverged=%d exec_growths=%d\n" !steps !bad !grows
+
+(* memory_pool_collection logs against CollExec (instantiated in CollInst): node_pool without the double-free check over the
+   intrusive list, array_pool (and node_pool with the check) over the address-ordered list; every address, every upstream
+   request, every range handed to a list, the reserved list array, and the three capacities must be the model's *)
+let run_exec_coll (dbl : bool) (fence : int) =
+  let steps = ref 0 and bad = ref 0 and lineno = ref 0 and grows = ref 0 and stuck = ref 0 in
+  let diverge msg line = incr bad; if !bad <= 12 then Printf.printf "DIVERGE line %d: %s :: %s\n" !lineno msg (if String.length line > 220 then String.sub line 0 220 else line) in
+  let show_evs evs = String.concat " " (List.map (function
+      | EUp (a, s) -> Printf.sprintf "U+(%d,%d)" (iz a) (iz s) | EUpFail -> "U+fail"
+      | EIns (n, m, s) -> Printf.sprintf "I(%d,%d,%d)" (iz n) (iz m) (iz s) | EResv (m, s) -> Printf.sprintf "R(%d,%d)" (iz m) (iz s)) evs) in
+  let answers events = List.filter_map (function EUp (a, _) -> Some (Some a) | EUpFail -> Some None | _ -> None) events in
+  (* the two instantiations behind one interface *)
+  let ust = ref None and ost = ref None and sst = ref None and log2 = ref false in
+  let live () = !ust <> None || !ost <> None || !sst <> None in
+  let drop () = ust := None; ost := None; sst := None in
+  let me () = if !sst <> None then n_of_int 1 else n_of_int 8 in
+  let caps_of () = match !ust, !ost, !sst with
+    | Some s, _, _ -> Some (iz (cc_capacity_left s), iz (ar_next_block_size s.cc_ar), (fun ns -> match c_find ug_ns (zi ns) s.cc_lists with Some g -> Some (iz (ug_free g)) | None -> None))
+    | _, Some s, _ -> Some (iz (cc_capacity_left s), iz (ar_next_block_size s.cc_ar), (fun ns -> match c_find og_ns (zi ns) s.cc_lists with Some g -> Some (iz (og_free g)) | None -> None))
+    | _, _, Some s -> Some (iz (cc_capacity_left s), iz (ar_next_block_size s.cc_ar), (fun ns -> match c_find sg_ns (zi ns) s.cc_lists with Some g -> Some (iz (sg_free g)) | None -> None))
+    | _ -> None in
+  let check_caps size caps line =
+    match caps_of () with
+    | None -> ()
+    | Some (cap, next, pcap) ->
+      (match (try Some (List.assoc "cap" caps) with Not_found -> None) with
+       | Some c when c <> cap -> diverge (Printf.sprintf "capacity_left: model %d" cap) line | _ -> ());
+      (match (try Some (List.assoc "next" caps) with Not_found -> None) with
+       | Some c when c <> next -> diverge (Printf.sprintf "next_capacity: model %d" next) line | _ -> ());
+      (match (try Some (List.assoc "pcap" caps), (try Some (List.assoc "maxn" caps) with Not_found -> None) with Not_found -> None, None) with
+       | Some c, Some mx when size >= 1 && size <= mx ->
+         (match pcap (iz (coll_bkt_me (me ()) !log2 (zi size))) with
+          | Some m when m <> c -> diverge (Printf.sprintf "pool_capacity_left(%d): model %d" size m) line | _ -> ())
+       | _ -> ()) in
+  let step (o : coll_op) =
+    match !ust, !ost, !sst with
+    | Some s, _, _ -> (match uc_step !log2 s o with Some ((s', r), evs) -> ust := Some s'; Some (r, evs) | None -> None)
+    | _, Some s, _ -> (match oc_step !log2 s o with Some ((s', r), evs) -> ost := Some s'; Some (r, evs) | None -> None)
+    | _, _, Some s -> (match sc_step !log2 s o with Some ((s', r), evs) -> sst := Some s'; Some (r, evs) | None -> None)
+    | _ -> None in
+  (try
+     while true do
+       let line = input_line stdin in
+       incr lineno;
+       match String.split_on_char '|' line with
+       | [head; evs; caps] ->
+         let (lhs, rhs) = match String.index_opt head '=' with
+           | Some i -> (split_ws (String.sub head 0 i), split_ws (String.sub head (i + 1) (String.length head - i - 1)))
+           | None -> (split_ws head, []) in
+         let (events, _, _) = parse_events evs in
+         let caps = kv caps in
+         let finish size (r, mev) =
+           incr steps;
+           if mev <> events then diverge (Printf.sprintf "model events [%s]" (show_evs mev)) line;
+           (match r, rhs with
+            | ObsOk x, "ok" :: p :: _ -> if iz x <> int_of_string p then diverge (Printf.sprintf "model address %d" (iz x)) line
+            | ObsNull, "null" :: _ | ObsThrow, "throw" :: _ | ObsTrue, "true" :: _ -> ()
+            | ObsOk x, _ -> diverge (Printf.sprintf "model serves the request at %d" (iz x)) line
+            | ObsNull, _ -> diverge "model refuses (null)" line
+            | ObsThrow, _ -> diverge "model throws" line
+            | _, _ -> diverge "unexpected model outcome" line);
+           List.iter (function EUp _ -> incr grows | _ -> ()) mev;
+           check_caps size caps line in
+         (match lhs, rhs with
+          | "coll" :: pt :: bd :: mx :: bs :: src :: _, "ok" :: _ when pt = "node" || pt = "array" || pt = "small" ->
+            drop (); log2 := (bd = "log2");
+            let ordered = pt = "array" || dbl in
+            let k = if src = "grow" then AGrow else if src = "const" then AConst else AFixed in
+            let answer = match answers events with a :: _ -> a | [] -> None in
+            let mxz = zi (int_of_string mx) and bsz = zi (int_of_string bs) in
+            let mev =
+              if pt = "small" then (match sc_construct !log2 k (zi fence) mxz bsz answer with
+                  | Some ((s, true), mev) -> sst := Some s; Some mev | Some ((_, false), mev) -> Some mev | None -> None)
+              else if ordered then (match oc_construct !log2 k (zi fence) mxz bsz answer with
+                  | Some ((s, true), mev) -> ost := Some s; Some mev | Some ((_, false), mev) -> Some mev | None -> None)
+              else (match uc_construct !log2 k (zi fence) mxz bsz answer with
+                  | Some ((s, true), mev) -> ust := Some s; Some mev | Some ((_, false), mev) -> Some mev | None -> None) in
+            incr steps;
+            (match mev with
+             | Some mev -> if mev <> events then diverge (Printf.sprintf "constructor: model events [%s]" (show_evs mev)) line
+             | None -> diverge "constructor: the model's assertion fires" line);
+            if not (live ()) then diverge "constructor: the model throws bad_node_size" line;
+            (match (try Some (List.assoc "maxn" caps) with Not_found -> None) with
+             | Some m when m <> iz (if pt = "small" then sc_max !log2 mxz else coll_max !log2 mxz) -> diverge "max_node_size differs from the model's" line | _ -> ());
+            check_caps 0 caps line
+          | ("pool" | "coll") :: _, _ -> drop ()
+          | ("ma" | "mfa" | "mv") :: _, _ -> drop ()
+          | (("an" | "tn" | "aa" | "ta") as o) :: args, res :: _ when live () ->
+            let (count, size, al) = (match args with
+                | [c; sz; a] -> (int_of_string c, int_of_string sz, int_of_string a)
+                | [sz; a] -> (1, int_of_string sz, int_of_string a) | _ -> (1, 1, 1)) in
+            (* the allocator traits refuse an alignment above alignment_for(size) before the collection is asked *)
+            let over_aligned = size >= 1 && al > min 16 (size land (-size)) in
+            let ans = answers events in
+            let a1 = (match ans with a :: _ -> a | [] -> None) in
+            let a2 = (match ans with _ :: a :: _ -> a | [a] -> a | [] -> None) in
+            let op = (match o with
+                | "an" -> CAllocNode (zi size, a1) | "tn" -> CTryAllocNode (zi size)
+                | "aa" -> CAllocArray (zi size, zi (count * size), a1, a2) | _ -> CTryAllocArray (zi size, zi (count * size))) in
+            let before = (!ust, !ost, !sst) in
+            (match (if over_aligned then None else step op) with
+             | Some (r, mev) -> finish size (r, mev)
+             | None ->
+               (* not described by the model: refused for its parameters before any list is looked at (no events) *)
+               (let (a, b, c) = before in ust := a; ost := b; sst := c);
+               if events = [] && (res = "throw" || res = "null") then check_caps size caps line
+               else (incr stuck; diverge "the model does not describe this call (an assertion of the implementation would fire)" line; drop ()))
+          | ("dn" | "da" | "tdn" | "tda") :: _, "true" :: p :: kind :: c :: sz :: _ when live () ->
+            let size = int_of_string sz in
+            let bytes = if kind = "node" then size else int_of_string c * size in
+            (match step (CDealloc (zi size, zi bytes, zi (int_of_string p))) with
+             | Some (r, mev) -> finish size (r, mev)
+             | None -> diverge "model: the released memory is not out (or not with that size)" line; drop ())
           | _ -> ())
        | _ -> ()
      done
